@@ -228,10 +228,12 @@ class Shard:
             text += "\n"
         line = text.count("\n") + 1
         self.ranges = []
+        self.starts = {}
         chunks = [text]
         for u in self.units:
             n = u.src.count("\n")
             self.ranges.append((line, line + n - 1, u))
+            self.starts[u.key] = line
             chunks.append(u.src)
             line += n
         chunks.append("fn main() {\n    rt::init();\n")
@@ -341,7 +343,7 @@ def _attribute(shard, diags):
             loose.append(msg + (" @line %s" % line if line else ""))
             continue
         code = (d.get("code") or {}).get("code") if d.get("code") else None
-        per.setdefault(u.key, []).append({"code": code, "message": msg,
+        per.setdefault(u.key, []).append({"code": code, "message": msg, "rel_line": line - shard.starts[u.key] + 1,
                                           "rendered": (d.get("rendered") or "")[:1500]})
     return per, loose
 
